@@ -49,7 +49,7 @@ template <class K> static void check_copy(Engine<K> &src, Engine<K> &dst, const 
     VF_CHECK(b.n_props[0] >= expect_v && b.n_props[0] <= expect_v + dst.orphans.size() + dst.props.size() + 2, "oracle:copy-extra-props", how << ": vertex property count of the copy is " << b.n_props[0]);
 }
 
-template <class K> static void check_orphans(Engine<K> &e) {
+template <class K> static void check_orphans(Engine<K> &e, bool republish = false) {
     // handles obtained from the assigned-to mesh before the assignment: safely usable, sized to the new counts,
     // still attached, but no longer findable by name (unless the source brought its own property of that name:
     // then it must be a different storage)
@@ -61,8 +61,32 @@ template <class K> static void check_orphans(Engine<K> &e) {
         VF_CHECK(p->attached(), "oracle:orphan.detached", "handle " << p->label << " reports being detached after assignment");
         for (int i = 0; i < n; ++i) (void)p->get(i);   // every element readable (ASan)
         if (n) p->shadow[0] = p->set_random(0, cur()->rng);
+        if (p->republished) { VF_CHECK(p->findable_in(e.mesh) && (n == 0 || p->same_storage_as_found(e.mesh, cur()->rng)), "oracle:orphan.republish-not-found", "re-published property " << p->name << " is not found by name any more"); continue; }
         if (p->name.empty()) continue;
         if (p->findable_in(e.mesh)) VF_CHECK(!p->same_storage_as_found(e.mesh, cur()->rng), "oracle:orphan.findable", "property " << p->name << " held across assignment is still findable by name");
+    }
+    if (!republish) return;
+    // "stay safely usable": a handle held across the assignment can be published again (named, shared, persistent) and is
+    // then a persistent property of the mesh like any other - found by name, and carried by the next copy and assignment
+    int k = 0; std::vector<IProp *> re;
+    for (auto &p : e.orphans) {
+        if (p->size() == (size_t)-1 || !cur()->rng.chance(1, 2)) continue;
+        std::string nn = "re:" + std::to_string(k++) + ":" + p->name;
+        cur()->op("re-publish handle " + p->label + " held across assignment as persistent \"" + nn + "\"");
+        std::string r = p->republish(e.mesh, nn);
+        if (r == "unsupported") continue;
+        cur()->cnt.add("orphans-republished");
+        VF_CHECK(r.empty(), "oracle:orphan.republish-failed", "set_name/set_shared/set_persistent on a handle held across assignment " << r);
+        VF_CHECK(p->findable_in(e.mesh) && (p->size() == 0 || p->same_storage_as_found(e.mesh, cur()->rng)), "oracle:orphan.republish-not-found", "re-published property " << nn << " is not found by name");
+        re.push_back(p.get());
+    }
+    if (re.empty()) return;
+    XMesh<K> cc(e.mesh); XMesh<K> as; as.add_vertex(Vec3d(0, 0, 0)); as = e.mesh;
+    cur()->cnt.add("copies", 2);
+    for (auto *p : re) {
+        int a = p->equal_in(cc), b = p->equal_in(as);
+        VF_CHECK(a == 1, "oracle:copy-lost-persistent", "copy construction after re-publishing: persistent property " << p->name << (a < 0 ? " is missing in the copy" : " has other values in the copy"));
+        VF_CHECK(b == 1, "oracle:copy-lost-persistent", "assignment after re-publishing: persistent property " << p->name << (b < 0 ? " is missing in the copy" : " has other values in the copy"));
     }
 }
 
@@ -109,7 +133,7 @@ template <class K> static void run_c13(Ctx &ctx, EngCfg g, int steps) {
         tracked = tracked_counts(A);
         B.assign_from(A);
         check_copy(A, B, "assignment", tracked);
-        check_orphans(B);
+        check_orphans(B, true);
         B.check_all();
         independence(A, B, steps);
         check_orphans(B);
